@@ -292,8 +292,15 @@ class AbstractDateTime(AnyAtomicType):
 
     def _operation(self, other: object, op: Callable[[Any, Any], Any]) \
             -> Union['DayTimeDuration', 'AbstractDateTime']:
+        if self.name.startswith('g'):
+            # no arithmetic is defined on xs:gYear, xs:gYearMonth, xs:gMonth, xs:gMonthDay, xs:gDay
+            raise TypeError("wrong type %r for operand %r" % (type(self), self))
+
         match other:
             case AbstractDateTime():
+                if not isinstance(other, type(self)) and not isinstance(self, type(other)):
+                    # e.g. an xs:date minus an xs:dateTime or an xs:time
+                    raise TypeError("wrong type %r for operand %r" % (type(other), other))
                 dt1, dt2 = get_comparable_datetimes(self._dt, other._dt)
                 if 1 <= self._year <= 9999 and 1 <= other._year <= 9999:
                     return DayTimeDuration.fromtimedelta(dt1 - dt2)
